@@ -42,7 +42,13 @@ Lookalikes == { <<85, 105, 100, 58, 9, 55, 9, 56, 9, 57>>,
                 <<84, 104, 114, 101, 97, 100, 115, 58, 9, 57, 57>>,
                 <<80, 80, 105, 100, 58, 9, 49>>,
                 <<83, 116, 97, 116, 101, 58, 9, 90, 32, 40, 122, 111, 41>>,
-                <<120, 41, 32, 82, 32, 57, 32, 56, 32, 55, 32, 54, 32, 53>> }
+                <<120, 41, 32, 82, 32, 57, 32, 56, 32, 55, 32, 54, 32, 53>>,
+                \* ... nor any other byte a text-processing routine may take for a line break
+                \* (CR, form feed, vertical tab, file separator): "x\rUid:\t7\t8\t9" and friends
+                <<120, 13, 85, 105, 100, 58, 9, 55, 9, 56, 9, 57>>,
+                <<120, 12, 71, 105, 100, 58, 9, 55, 9, 56, 9, 57>>,
+                <<120, 11, 84, 104, 114, 101, 97, 100, 115, 58, 9, 57, 57>>,
+                <<120, 28, 80, 80, 105, 100, 58, 9, 49>> }
 AllComms == Comms(MaxLen) \cup {Pattern(l) : l \in LongLens} \cup Lookalikes
 
 \* the kernel keeps at most 15 bytes of a name (TASK_COMM_LEN - 1)
@@ -54,7 +60,9 @@ StatusOf == [R |-> "running", S |-> "sleeping", D |-> "disk-sleep", T |-> "stopp
 
 \* device numbers: major 4 = tty / ttyS, major 136 = pts (minor = index)
 TtyPath(n) == CASE n = 1025 -> "/dev/tty1" [] n = 1088 -> "/dev/ttyS0" [] n = 34816 -> "/dev/pts/0"
-                [] n = 34826 -> "/dev/pts/10" [] n = 34939 -> "/dev/pts/123" [] OTHER -> "None"
+                [] n = 34826 -> "/dev/pts/10" [] n = 34939 -> "/dev/pts/123"
+                \* minors above 255 keep their high bits in bits 20..31 of the device number
+                [] n = 1083436 -> "/dev/pts/300" [] n = 15763711 -> "/dev/pts/4095" [] OTHER -> "None"
 
 \* thread i (1 = main thread) : name and tick counters
 TComm(c, i) == IF i = 1 THEN Trunc(c) ELSE <<116, 41, 32, 40>> \o <<48 + i>>   \* "t) (<i>"
